@@ -2,3 +2,4 @@ pub mod layout;
 pub mod libgen;
 pub mod mutate;
 pub mod svgen;
+pub mod textgen;
